@@ -64,10 +64,26 @@ def scramble(rng, data, mask, style):
     return bytes(out)
 
 
-def real_decode(kind, fmt, data):
+def real_decode(kind, fmt, data, strict=False):
+    """strict: with the process treating warnings as errors (python -W error, pytest filterwarnings=error): what the reader
+    returns for don't-care bytes must not turn into an exception there either"""
+    import warnings
     st = io.BytesIO(data + B.SENTINEL)
-    blk = A.klass(kind)._build(st, fmt)
+    if strict:
+        with warnings.catch_warnings():
+            warnings.simplefilter("error")
+            blk = A.klass(kind)._build(st, fmt)
+    else:
+        blk = A.klass(kind)._build(st, fmt)
     return blk, st.tell()
+
+
+def strict_ok(kind, fmt, data):
+    try:
+        real_decode(kind, fmt, data, strict=True)
+        return True
+    except Exception:
+        return False
 
 
 def check_block(ctx, kind, fmt, data, mask, orig_abs, canonical, source, rep):
@@ -76,14 +92,16 @@ def check_block(ctx, kind, fmt, data, mask, orig_abs, canonical, source, rep):
         ctx.diff("mask.length", f"{kind}/{source}: model consumed {len(mask)} of {len(data)} bytes", rep)
         return
     ndc = sum(1 for m in mask if m == 0)
+    # every fourth block is read with warnings treated as errors - provided the unscrambled encoding reads cleanly that way
+    strict = ctx.rng.random() < 0.25 and strict_ok(kind, fmt, data)
     for style in STYLES:
         s = scramble(ctx.rng, data, mask, style)
         try:
-            blk, tell = real_decode(kind, fmt, s)
+            blk, tell = real_decode(kind, fmt, s, strict=strict)
             got = A.norm(A.absv(kind, blk))
             reenc = A.encode(blk)
         except Exception as e:
-            ctx.fail(f"{kind}/{source}: decoding fails once don't-care bytes are changed: {type(e).__name__}: {str(e)[:100]}",
+            ctx.fail(f"{kind}/{source}: decoding fails once don't-care bytes are changed{' (process with warnings as errors)' if strict else ''}: {type(e).__name__}: {str(e)[:100]}",
                      dict(rep, style=style, scrambled=s.hex() if len(s) < 4000 else None), ident=f"{kind} dontcare decode raises")
             return
         if got != orig_abs:
